@@ -3,9 +3,9 @@
 Everything here is a pure function of plain data:
 
   service   := {"name", "did", "layout", "type"}        identification service `22 <did>` -> `62 <did> <payload>`
-  mparam    := {"svc": <service name>, "exp": <expected value text>, "tgt": "id"|"nrc",
+  mparam    := {"svc": <service name>, "exp": <expected value text>, "tgt": "id"|"nrc"|"gsid",
                 "phys": None|True|False}                 (phys only for base variants; None == default == physical)
-  candidate := {"kind": "EV"|"BV", "own": [service names the variant re-defines with its own request],
+  candidate := {"kind": "EV"|"BV", "gnr": True if the variant defines its own copy of the GLOBAL-NEG-RESPONSE (else inherited), "own": [service names the variant re-defines with its own request],
                 "alt": [service names the variant re-defines with the SAME request but another response layout], "patterns": [[mparam..]..]}
   answer    := "V1" | "V2" | "NEG" | "BAD" | "EMPTY"     what the ECU replies to one identification request
                 (value 1, value 2, negative response, truncated = undecodable bytes, a reply of zero bytes)
@@ -45,13 +45,19 @@ VALUES: Dict[str, Dict[str, Any]] = {
     # comparison rule named in the property's anchors). Every value contains at least one digit a-f.
     "byteslc": {"V1": bytes([0x0A, 0x01]), "V2": bytes([0x0A, 0x02]), "other": bytes([0x0B, 0xFF])},
     "dtclc": {"V1": 0x12AB, "V2": 0x5C78, "other": 0x9ABC},
+    # A_FLOAT64 values of magnitude 4e9 that differ by 1 and by 2: equal means |expected - value| < 1e-8 (an ABSOLUTE
+    # tolerance); any relative tolerance >= 2.5e-10 would confuse them
+    "f64big": {"V1": 4000000000.0, "V2": 4000000001.0, "other": 4000000002.0},
 }
 # A possibly empty payload would make the positive response as short as the negative response `7F 22 31`, which odxtools
 # then decodes with the positive response under a constant-mismatch warning (DON'T-CARE): these services carry a constant
 # byte in front of the payload, so that a negative response stays undecodable for the positive response.
 PADDED_TYPES = ("asciiz", "bytesz")
 KIND = {"u8z": "u8", "floatz": "float", "asciiz": "ascii", "bytesz": "bytes",  # comparison kind of the falsy variants
-        "byteslc": "bytes", "dtclc": "dtc"}  # ... and of the lower-case spelled ones
+        "byteslc": "bytes", "dtclc": "dtc",  # ... and of the lower-case spelled ones
+        "f64big": "float"}
+QUICK_FEW_LAYOUT_TYPES = ("byteslc", "dtclc", "f64big")  # quick: only at an SNREF leaf, in a structure and in a field
+GSID = 0x22  # the request SID echoed in the negative response; the GLOBAL-NEG-RESPONSE exposes it as parameter `gsid`
 LOWER_CASE_TYPES = ("byteslc", "dtclc")
 BASE_LAYOUTS = ("top", "toppath", "struct", "field", "tstruct")
 # field replies: layout -> (number of items, index of the item that carries the wanted value); all other items carry "other"
@@ -101,13 +107,15 @@ def value_equals(typ: str, expected: str, v: Any) -> bool:
     if typ == "bytes":
         return bytes.fromhex(expected) == bytes(v)
     if typ == "float":
-        return float(expected) == float(v)
+        return abs(float(expected) - float(v)) < 1e-8  # the statement's "equal" for floats: absolute tolerance only
     if typ == "dtc":
         return int(expected, 16) == v
     raise ValueError(typ)
 
 
 def wire(typ: str, v: Any) -> bytes:
+    if typ == "f64big":
+        return struct.pack(">d", v)
     if typ == "asciiz":
         return v.encode("latin-1") + b"\x00"  # MIN-MAX-LENGTH, ZERO termination (always sent, also at the end of the PDU)
     if typ == "bytesz":
@@ -175,6 +183,8 @@ def decoded_values(svc: Dict[str, Any], tgt: str, answer: str, alt: bool = False
         return svc["type"], item_values(svc, answer, alt)
     if tgt == "nrc":
         return "u8", ([NRC] if answer == "NEG" else [])
+    if tgt == "gsid":  # parameter of the GLOBAL negative response only (inherited from the functional group, or the
+        return "u8", ([GSID] if answer == "NEG" else [])  # candidate's own copy): it decodes `7F 22 31` as well
     raise ValueError(tgt)
 
 
